@@ -262,6 +262,10 @@ class Check:
         self.props_path = "PteraModel/Props/%s.lean" % prop
         self.driver = None
         self._distinct = set()
+        try:
+            os.remove(os.path.join(VERIF, "replays", "%s-%s-%d.json" % (prop, tier, seed)))
+        except OSError:
+            pass
 
     # -- proof leg ----------------------------------------------------------
     def proof_leg(self, extra_targets=()):
